@@ -206,7 +206,22 @@ def F36():  # C15 a model processor failing for an imported model leaves the use
     try: mm.model_from_file(os.path.join(d, "a.m")); return False
     except TextXError: pass
     return "_tx_instrumented" in Item.__dict__ or len(Item._tx_obj_attrs) > 0
-ALL = [F36, F28, F1, F2, F3, F4, F5, F6, F7, F8, F9, F10, F11, F12, F13, F14, F15_16, F18, F19, F20, F21, F22, F23, F24, F26, F27]
+def F37():  # C17 a cached file whose model object is falsy is parsed again (global repository)
+    import os, tempfile
+    class Model:
+        def __init__(self, **kw):
+            for k, v in kw.items(): setattr(self, k, v)
+        def __len__(self): return len(self.items)
+    mm = metamodel_from_str("Model: 'model' items*=Item; Item: 'item' name=ID;", classes=[Model], global_repository=True)
+    d = tempfile.mkdtemp(); f = os.path.join(d, "empty.mdl"); open(f, "w").write("model")
+    return mm.model_from_file(f) is not mm.model_from_file(f)
+def F38():  # C28 an empty text given with a file name: the file on disk is parsed instead
+    import os, tempfile
+    mm = metamodel_from_str("Model: 'model' items*=Item; Item: 'item' name=ID;")
+    d = tempfile.mkdtemp(); f = os.path.join(d, "a.mdl"); open(f, "w").write("model item fromdisk")
+    try: mm.model_from_str("", file_name=f); return True
+    except TextXError as e: return not (e.line == 1 and e.col == 1)
+ALL = [F38, F37, F36, F28, F1, F2, F3, F4, F5, F6, F7, F8, F9, F10, F11, F12, F13, F14, F15_16, F18, F19, F20, F21, F22, F23, F24, F26, F27]
 if __name__ == "__main__":
     sel = sys.argv[1:]
     for w in ALL:
